@@ -230,7 +230,6 @@ func (sm3 *SM3) Write(p []byte) (int, error) {
 // Sum appends the current hash to b and returns the resulting slice.
 // It does not change the underlying hash state.
 func (sm3 *SM3) Sum(in []byte) []byte {
-	_, _ = sm3.Write(in)
 	msg := sm3.pad()
 	//Finalize
 	digest := sm3.update2(msg)
@@ -246,7 +245,7 @@ func (sm3 *SM3) Sum(in []byte) []byte {
 	for i := 0; i < 8; i++ {
 		binary.BigEndian.PutUint32(out[i*4:], digest[i])
 	}
-	return out
+	return in[:len(in)+needed]
 
 }
 
